@@ -19,6 +19,9 @@ RULE = (
     'seq: sequences of 1..10 grammar tokens of every kind rendered with unambiguous separators; oracle = exact '
     'kinds and values come back. errpos: one bad token planted in a well-formed sheet parsed by a raising parser; '
     'oracle = exception line/col/message point at an offset where the reported value starts. '
+    'complete: a prefix, then an unterminated url( (13 spellings incl. hex and simple escapes of u/r/l, optional white space, bare / '
+    'quoted / quoted-and-closed content), string or comment at the end of the text, full-sheet mode; oracle = same token kinds, '
+    'values and positions as for the explicitly terminated text, exactly one EOF. '
     'Non-trivial: >=3 tokens of >=2 kinds and (an escape, a multi-line token, an end-of-input completion or a '
     'non-ASCII character); distinct by text.'
 )
@@ -592,7 +595,59 @@ def check_errpos(case, ctx):
     ctx.case(text, ln > 1 or col > 1, {'text': text, 'error': str(exc)[-60:]})
 
 
+# ---------------------------------------------------------------------------
+# completion at the end of input (full-sheet mode)
+
+URL_SPELLINGS = ['url(', 'URL(', 'Url(', 'u\\72l(', 'u\\72 l(', '\\75 rl(', '\\000075rl(', 'ur\\6c(', 'ur\\6C(', 'U\\52 L(',
+                 'ur\\l(', '\\55\tRL(', 'u\\000072\r\nl(']
+OPEN_CONTENT = ['', 'a', 'x.png', 'a/b.css?q=1', '\\41 b', 'é', '#f', 'a-b_c', '%20']
+PREFIXES = ['', 'a{background:', 'a { b : c } ', '@import ', '/* c */', 'x\n{y:\n', '"s" ', 'a{b:url(x)}\n']
+complete_strategy = st.fixed_dictionaries({
+    'prefix': st.sampled_from(PREFIXES),
+    'kind': st.sampled_from(['url', 'url', 'url-dq', 'url-sq', 'url-dq-closed', 'string-dq', 'string-sq', 'comment']),
+    'spelling': st.sampled_from(URL_SPELLINGS),
+    'ws': st.sampled_from(['', '', ' ', '\n', ' \t']),
+    'content': st.sampled_from(OPEN_CONTENT),
+    'trail': st.sampled_from(['', '', ' ', '\n']),
+})
+
+
+def check_complete(case, ctx):
+    k, c = case['kind'], case['content']
+    if k == 'url':
+        open_, closer = case['spelling'] + case['ws'] + c + (case['trail'] if c else ''), ')'
+        want = 'URI'
+    elif k in ('url-dq', 'url-sq'):
+        q = '"' if k == 'url-dq' else "'"
+        open_, closer = case['spelling'] + case['ws'] + q + c, q + ')'
+        want = 'URI'
+    elif k == 'url-dq-closed':
+        open_, closer = case['spelling'] + case['ws'] + '"' + c + '"' + case['trail'], ')'
+        want = 'URI'
+    elif k in ('string-dq', 'string-sq'):
+        q = '"' if k == 'string-dq' else "'"
+        open_, closer = q + c + case['trail'].replace('\n', ' '), q  # a line break ends a string (INVALID), nothing to complete
+        want = 'STRING'
+    else:
+        open_, closer = '/*' + c + case['trail'], '*/'
+        want = 'COMMENT'
+    text = case['prefix'] + open_
+    got = toks(text, True)
+    ref = toks(text + closer, True)
+    if [t[0] for t in ref][-2:] != [want, 'EOF']:
+        return  # the explicitly terminated text does not end in that construct (spelling not a url( after all)
+    if not got or got[-1][0] != 'EOF' or sum(1 for t in got if t[0] == 'EOF') != 1:
+        raise Violation('complete:end-marker', f'{text!r}: {[t[0] for t in got]}')
+    if [t[0] for t in got] != [t[0] for t in ref]:
+        raise Violation('complete:not-completed:' + want, f'{text!r} -> {[(t[0], t[1]) for t in got][-4:]}, terminated text gives {[(t[0], t[1]) for t in ref][-3:]}')
+    if [t[:2] for t in got[:-2]] != [t[:2] for t in ref[:-2]] or [t[2:] for t in got[:-1]] != [t[2:] for t in ref[:-1]]:
+        raise Violation('complete:earlier-tokens-differ', f'{text!r}: {got!r} vs {ref!r}')
+    ctx.event('complete:' + k)
+    ctx.case(text, '\\' in open_ or bool(case['ws']) or '\n' in text, {'text': text, 'last': list(got[-2][:2])})
+
+
 SUBS = [
+    Sub('complete', check_complete, strategy=complete_strategy, quick=4000, thorough=200000, shards_quick=4),
     Sub('tiling', check_tiling, strategy=tiling_strategy, quick=40000, thorough=2400000, shards_quick=8),
     Sub('firstchar', check_firstchar, enumerate=firstchar_cases, shards_quick=4),
     Sub('seq', check_seq, strategy=token_seq(), quick=6000, thorough=400000, shards_quick=8),
